@@ -3,7 +3,7 @@
 cd "$(dirname "$0")/.." || exit 2
 for s in ${1:-1 2 3 7}; do
   for p in ${PROPS:-C01 C02 C03 C04 C05 C06 C07 C08 C09 C10 C11 C12 C13 C14 C15 C16 C17 C18 C19 C20}; do
-    out=$(VERIF_SEED=$s ./check $p --tier ${2:-quick} --evidence /tmp/sweep_ev_$p.json 2>&1)
+    out=$(VERIF_SEED=$s ./check $p --tier ${2:-quick} --evidence /tmp/sweep_ev_${s}_$p.json 2>&1)
     rc=$?
     echo "seed=$s $p exit=$rc $(echo "$out" | grep -E 'verdict=' | cut -c1-150)"
     [ $rc -ne 0 ] && echo "$out" | grep -E "VIOLATION|key=|INCONCLUSIVE" | cut -c1-400 | head -8
